@@ -169,10 +169,25 @@ def gen_case(g, tier):
         clock.append(t)
     tl = None if r.random() < 0.5 else float(r.choice([0.0, 0.5, 1.0, 2.0, 4.0, 8.0, 8.0, 16.0, 16.0, 32.0]))
     interval = r.choice([None, None, 0.0, 0.5, 1.0, 4.0])
+    rho = r.choice([1.0, 0.5, 2.0, 0.125, 4.0])
+    if r.random() < 0.12:
+        # a clock far from zero with a limit that is not a multiple of its resolution: `start + limit` is not a binary64
+        # number, `limit - (now - start)` is; a Timer that precomputes the deadline stops at a different read
+        unit = 2.0 ** -22
+        t = 2.0 ** 30 + r.randint(0, 8) * unit
+        clock = []
+        for _ in range(nreads):
+            t += r.choice([0, 0, 1, 1, 2, 4]) * unit
+            clock.append(t)
+        tl = r.choice([1.25, 2.5, 3.25, 5.25, 9.5]) * unit
+        interval = None
+    if r.random() < 0.12:
+        # penalties far below any absolute tolerance: a raise from 2^-40 to 10 * 2^-40 is a raise
+        rho = 2.0 ** -r.randint(30, 45)
     return {"spec": spec.to_json(), "sc": sc, "atol": atol, "otol": otol, "itol": itol, "iter_limit": il,
             "time_limit": tl, "obj_lower": r.choice([-1e10, -1e10, -1e10, -1e10, -8.0, 0.0, 64.0]),
             "lamb_init": lamb_init, "lamb_max": lamb_max, "policy": policy,
-            "rho": r.choice([1.0, 0.5, 2.0, 0.125, 4.0]),
+            "rho": rho,
             "interval": interval, "collect": r.random() < 0.6, "script": script, "clock": clock,
             "x0": x0, "y0": y0, "fmt": r.choice(["coo", "csr", "csc"])}
 
